@@ -149,6 +149,9 @@ struct Reference {
     reported_infeasible: bool,
     /// an optimisation ran: objective strengthening may have been left behind
     optimised: bool,
+    /// what LinearSatUnsat runs leave in the solver (not part of the accumulated model): the
+    /// bound `x0 better than the reported optimum`
+    leftover: Vec<Con>,
 }
 
 impl Reference {
@@ -156,6 +159,47 @@ impl Reference {
         let m = Model::new(self.vars.clone(), self.cons.clone());
         m.solutions_with(|a| !self.blocked.iter().any(|b| a[..b.len()] == b[..]))
     }
+    /// The solutions of the accumulated model that also satisfy the leftover bounds.
+    fn effective_solutions(&self) -> Vec<Vec<i32>> {
+        self.solutions().into_iter().filter(|a| self.leftover.iter().all(|c| c.holds(a))).collect()
+    }
+}
+
+/// A panic while creating a variable: explained by the leftover bound of LinearSatUnsat iff that
+/// bound makes the solver's own model infeasible (creating variables in an infeasible solver is
+/// documented as not allowed).
+fn panic_violation(cx: &mut CaseCtx, r: &Reference, sig: String, msg: String) {
+    let explained = !r.leftover.is_empty() && r.effective_solutions().is_empty();
+    let old = std::mem::take(&mut cx.sig_suffix);
+    if explained {
+        cx.sig_suffix = "after-sat-unsat-optimise".into();
+    }
+    cx.violation(sig, msg);
+    cx.sig_suffix = old;
+}
+
+/// Run a judgement against the accumulated model. If it raises violations and the solver carries
+/// a leftover bound of LinearSatUnsat, the judgement is repeated against the model plus that
+/// bound: violations that the leftover bound explains exactly are reported under the suffix of
+/// that (known) finding, all others plainly.
+fn judged(cx: &mut CaseCtx, r: &Reference, f: &dyn Fn(&[Vec<i32>], &mut CaseCtx)) {
+    let sols = r.solutions();
+    let official = cx.capture(|cx| f(&sols, cx));
+    if official.is_empty() {
+        return;
+    }
+    let explained = !r.leftover.is_empty() && {
+        let eff = r.effective_solutions();
+        cx.capture(|cx| f(&eff, cx)).is_empty()
+    };
+    let old = std::mem::take(&mut cx.sig_suffix);
+    if explained {
+        cx.sig_suffix = "after-sat-unsat-optimise".into();
+    }
+    for (sig, msg) in official {
+        cx.violation(sig, msg);
+    }
+    cx.sig_suffix = old;
 }
 
 impl Property for C10 {
@@ -175,7 +219,7 @@ impl Property for C10 {
     fn assumptions(&self) -> Vec<String> {
         vec![
             "after the solver has reported infeasibility no new variables are created (the library documents this as not allowed); posting and solving continue".into(),
-            "after an optimise call later results are judged like all others (the property lists an optimum among the results after which the solver answers for the accumulated model); violations that occur after a LinearSatUnsat run carry the suffix after-sat-unsat-optimise".into(),
+            "after an optimise call later results are judged like all others (the property lists an optimum among the results after which the solver answers for the accumulated model); a violation that occurs after a LinearSatUnsat run carries the suffix after-sat-unsat-optimise only if the result is exactly right for the accumulated model plus the bound (x0 better than the reported optimum) that the procedure leaves in the solver; every other violation is reported plainly".into(),
             "iteration blocks every returned solution except the last one of an abandoned iterator (the blocking clause is added lazily)".into(),
             "a fresh default brancher is created for every solve (valid use)".into(),
         ]
@@ -231,7 +275,6 @@ fn check_root_bounds(solver: &Solver, ids: &[DomainId], r: &Reference, cx: &mut 
     if r.reported_infeasible {
         return true;
     }
-    let sols = r.solutions();
     let res = guard(|| ids.iter().map(|id| (solver.lower_bound(id), solver.upper_bound(id))).collect::<Vec<_>>());
     let bounds = match res {
         Ok(b) => b,
@@ -241,17 +284,19 @@ fn check_root_bounds(solver: &Solver, ids: &[DomainId], r: &Reference, cx: &mut 
         }
     };
     cx.acc.count("root_bound_checks", 1);
-    for (i, (lb, ub)) in bounds.iter().enumerate() {
-        let d = &r.vars[i];
-        if *lb < d.lb() || *ub > d.ub() {
-            cx.violation("root-bounds-outside-declared-domain", format!("{what}: x{i} reported as [{lb}, {ub}] but declared {:?}", d.values));
-            return true;
+    judged(cx, r, &|sols, cx| {
+        for (i, (lb, ub)) in bounds.iter().enumerate() {
+            let d = &r.vars[i];
+            if *lb < d.lb() || *ub > d.ub() {
+                cx.violation("root-bounds-outside-declared-domain", format!("{what}: x{i} reported as [{lb}, {ub}] but declared {:?}", d.values));
+                return;
+            }
+            if let Some(w) = sols.iter().find(|s| s[i] < *lb || s[i] > *ub) {
+                cx.violation("root-bounds-exclude-a-solution", format!("{what}: x{i} reported as [{lb}, {ub}] but {w:?} is a solution of the accumulated model"));
+                return;
+            }
         }
-        if let Some(w) = sols.iter().find(|s| s[i] < *lb || s[i] > *ub) {
-            cx.violation("root-bounds-exclude-a-solution", format!("{what}: x{i} reported as [{lb}, {ub}] but {w:?} is a solution of the accumulated model"));
-            return true;
-        }
-    }
+    });
     true
 }
 
@@ -267,6 +312,7 @@ pub fn run_history(ops: &[&Op], cx: &mut CaseCtx) {
         blocked: vec![],
         reported_infeasible: false,
         optimised: false,
+        leftover: vec![],
     };
     for d in &r.vars {
         let (id, l) = new_var(&mut solver, d, None, &[]);
@@ -295,7 +341,7 @@ pub fn run_history(ops: &[&Op], cx: &mut CaseCtx) {
                         changed_since_solve = true;
                     }
                     Err(e) => {
-                        cx.violation(format!("{}:newvar", panic_sig(&e)), format!("{what}: panic: {e}"));
+                        panic_violation(cx, &r, format!("{}:newvar", panic_sig(&e)), format!("{what}: panic: {e}"));
                         return;
                     }
                 }
@@ -319,7 +365,7 @@ pub fn run_history(ops: &[&Op], cx: &mut CaseCtx) {
                         r.vars.push(d);
                     }
                     Err(e) => {
-                        cx.violation(format!("{}:newlit", panic_sig(&e)), format!("{what}: panic: {e}"));
+                        panic_violation(cx, &r, format!("{}:newlit", panic_sig(&e)), format!("{what}: panic: {e}"));
                         return;
                     }
                 }
@@ -346,14 +392,14 @@ pub fn run_history(ops: &[&Op], cx: &mut CaseCtx) {
                     Ok(Err(_)) => {
                         r.cons.push(con);
                         changed_since_solve = true;
-                        if true {
-                            if let Some(w) = r.solutions().first() {
+                        judged(cx, &r, &|sols, cx| {
+                            if let Some(w) = sols.first() {
                                 cx.violation(
                                     "spurious-post-error",
                                     format!("{what}: infeasibility reported but {w:?} satisfies everything accumulated so far"),
                                 );
                             }
-                        }
+                        });
                         r.reported_infeasible = true;
                     }
                     Err(e) => {
@@ -371,16 +417,18 @@ pub fn run_history(ops: &[&Op], cx: &mut CaseCtx) {
                 let res = (Satisfy { ids: &ids, term: &mut Indefinite }).call(&mut solver, &mut br);
                 match res {
                     Ok(SatOut::Sat(a)) => {
-                        if !r.solutions().contains(&a) {
-                            cx.violation("stale-or-wrong-solution", format!("{what}: returned {a:?} which is not a solution of the accumulated model"));
-                        }
+                        judged(cx, &r, &|sols, cx| {
+                            if !sols.contains(&a) {
+                                cx.violation("stale-or-wrong-solution", format!("{what}: returned {a:?} which is not a solution of the accumulated model"));
+                            }
+                        });
                     }
                     Ok(SatOut::Unsat) => {
-                        if true {
-                            if let Some(w) = r.solutions().first() {
+                        judged(cx, &r, &|sols, cx| {
+                            if let Some(w) = sols.first() {
                                 cx.violation("spurious-unsat", format!("{what}: Unsatisfiable but {w:?} is a solution of the accumulated model"));
                             }
-                        }
+                        });
                         r.reported_infeasible = true;
                     }
                     Ok(other) => cx.violation("inconclusive", format!("{what}: {other:?}")),
@@ -403,19 +451,20 @@ pub fn run_history(ops: &[&Op], cx: &mut CaseCtx) {
                     extract: *extract as u8,
                 })
                 .call(&mut solver, &mut br);
-                let sols = r.solutions();
                 match res {
                     Ok(AssumeOut::Sat(a)) => {
-                        if (!sols.contains(&a) || list.iter().any(|p| !p.holds(&a))) {
-                            cx.violation("stale-or-wrong-solution", format!("{what}: returned {a:?} which does not satisfy the accumulated model and the assumptions"));
-                        }
+                        judged(cx, &r, &|sols, cx| {
+                            if !sols.contains(&a) || list.iter().any(|p| !p.holds(&a)) {
+                                cx.violation("stale-or-wrong-solution", format!("{what}: returned {a:?} which does not satisfy the accumulated model and the assumptions"));
+                            }
+                        });
                     }
                     Ok(AssumeOut::UnsatAssumptions(core, _)) => {
-                        if true {
+                        judged(cx, &r, &|sols, cx| {
                             if let Some(w) = sols.iter().find(|s| list.iter().all(|p| p.holds(s))) {
                                 cx.violation("spurious-unsat-under-assumptions", format!("{what}: but {w:?} satisfies the accumulated model and the assumptions"));
                             }
-                        }
+                        });
                         if let Some(Err(e)) = core {
                             let contradictory = list.len() == 2 && {
                                 let (a, b) = (list[0], list[1]);
@@ -427,11 +476,11 @@ pub fn run_history(ops: &[&Op], cx: &mut CaseCtx) {
                         }
                     }
                     Ok(AssumeOut::Unsat) => {
-                        if true {
+                        judged(cx, &r, &|sols, cx| {
                             if let Some(w) = sols.first() {
                                 cx.violation("spurious-unsat", format!("{what}: Unsatisfiable but {w:?} is a solution of the accumulated model"));
                             }
-                        }
+                        });
                         r.reported_infeasible = true;
                     }
                     Ok(other) => cx.violation("inconclusive", format!("{what}: {other:?}")),
@@ -456,7 +505,8 @@ pub fn run_history(ops: &[&Op], cx: &mut CaseCtx) {
                     on_solution: &mut |_, _| {},
                 })
                 .call(&mut solver, &mut br);
-                if true {
+                let definitive = matches!(end, IterEnd::Finished | IterEnd::Unsat);
+                judged(cx, &r, &|sols, cx| {
                     for (i, g) in got.iter().enumerate() {
                         if !sols.contains(g) {
                             cx.violation("stale-or-wrong-solution", format!("{what}: iteration produced {g:?} which is not a solution of the accumulated model"));
@@ -465,15 +515,15 @@ pub fn run_history(ops: &[&Op], cx: &mut CaseCtx) {
                             cx.violation("repeated-solution", format!("{what}: {g:?} produced twice"));
                         }
                     }
-                }
+                    if definitive && got.len() != sols.len() {
+                        cx.violation(
+                            "iteration-incomplete",
+                            format!("{what}: iteration ended after {} of {} solutions of the accumulated model", got.len(), sols.len()),
+                        );
+                    }
+                });
                 match end {
                     IterEnd::Finished | IterEnd::Unsat => {
-                        if got.len() != sols.len() {
-                            cx.violation(
-                                "iteration-incomplete",
-                                format!("{what}: iteration ended after {} of {} solutions of the accumulated model", got.len(), sols.len()),
-                            );
-                        }
                         r.blocked.extend(got.iter().cloned());
                         r.reported_infeasible = true;
                     }
@@ -494,7 +544,6 @@ pub fn run_history(ops: &[&Op], cx: &mut CaseCtx) {
                     cx.nontrivial = true;
                 }
                 changed_since_solve = true;
-                let sols = r.solutions();
                 let cb = RefCell::new(vec![]);
                 let mut br = solver.default_brancher();
                 let res = (Optimise {
@@ -506,21 +555,36 @@ pub fn run_history(ops: &[&Op], cx: &mut CaseCtx) {
                     callback_solutions: &cb,
                 })
                 .call(&mut solver, &mut br);
-                let best = if *maximise {
-                    sols.iter().map(|s| s[0]).max()
-                } else {
-                    sols.iter().map(|s| s[0]).min()
+                let best_of = |sols: &[Vec<i32>]| {
+                    if *maximise {
+                        sols.iter().map(|s| s[0]).max()
+                    } else {
+                        sols.iter().map(|s| s[0]).min()
+                    }
                 };
-                match res {
+                match &res {
                     Ok(OptOut::Optimal(a)) => {
-                        if (!sols.contains(&a) || Some(a[0]) != best) {
-                            cx.violation("wrong-optimum", format!("{what}: Optimal {a:?}; true optimum of x0 over the accumulated model is {best:?}"));
+                        judged(cx, &r, &|sols, cx| {
+                            let best = best_of(sols);
+                            if !sols.contains(a) || Some(a[0]) != best {
+                                cx.violation("wrong-optimum", format!("{what}: Optimal {a:?}; true optimum of x0 over the accumulated model is {best:?}"));
+                            }
+                        });
+                        if !*unsat_sat {
+                            // what the procedure leaves behind: x0 strictly better than the optimum
+                            r.leftover.push(if *maximise {
+                                Con::LinLe(vec![View::new(0, -1, 0)], -(a[0] + 1))
+                            } else {
+                                Con::LinLe(vec![View::id(0)], a[0] - 1)
+                            });
                         }
                     }
                     Ok(OptOut::Unsat) => {
-                        if best.is_some() {
-                            cx.violation("spurious-unsat", format!("{what}: Unsatisfiable but the accumulated model has solutions"));
-                        }
+                        judged(cx, &r, &|sols, cx| {
+                            if best_of(sols).is_some() {
+                                cx.violation("spurious-unsat", format!("{what}: Unsatisfiable but the accumulated model has solutions"));
+                            }
+                        });
                         r.reported_infeasible = true;
                     }
                     Ok(other) => cx.violation("inconclusive", format!("{what}: {other:?}")),
@@ -535,7 +599,6 @@ pub fn run_history(ops: &[&Op], cx: &mut CaseCtx) {
                     // among the results after which the solver answers for the accumulated model,
                     // so later operations are judged as usual, but marked in the signature.
                     r.optimised = true;
-                    cx.sig_suffix = "after-sat-unsat-optimise".to_string();
                 }
             }
         }
